@@ -203,7 +203,7 @@ def synthetic(ctx, shard, nshards):
     d = os.path.join(ctx.build.root, "tmp-c12-%d" % shard)
     os.makedirs(d, exist_ok=True)
     try:
-        for it in range(12 if not ctx.thorough else 300):
+        for it in range(30 if not ctx.thorough else 400):
             trans, tidx, offs, version, garbage = gen_table(rnd)
             data = tzif.write(trans, tidx, offs, version, v1_garbage=garbage)
             p = os.path.join(d, "z%d" % it)
